@@ -1,6 +1,7 @@
 package regexp2
 
 import (
+	"math"
 	"sync"
 	"sync/atomic"
 	"time"
@@ -52,7 +53,7 @@ func makeDeadline(d time.Duration) fasttime {
 	// clockEnd that covers our end implies that the current we read is live.
 	clockEnd := fast.clockEnd.read()
 	verifPoint(verifPtDeadlineRead)
-	end := fast.current.read() + durationToTicks(d+clockPeriod)
+	end := fast.current.read() + deadlineTicks(d)
 
 	// Start or extend clock if necessary.
 	if end > clockEnd {
@@ -68,7 +69,7 @@ func makeDeadline(d time.Duration) fasttime {
 		// recalculate our end value: fast.current may have been stale when we read
 		// it above, and refreshed since by us or by a concurrent caller that
 		// restarted the clock while we were waiting for the lock
-		end = fast.current.read() + durationToTicks(d+clockPeriod)
+		end = fast.current.read() + deadlineTicks(d)
 		fast.mu.Unlock()
 		extendClock(end)
 	}
@@ -116,6 +117,17 @@ func stopClock() {
 		isRunning = fast.running
 		fast.mu.Unlock()
 	}
+}
+
+// deadlineTicks is the timeout plus one clock period, in ticks. The sum
+// saturates: a timeout within one clock period of the maximum duration must not
+// wrap around to a deadline in the past.
+func deadlineTicks(d time.Duration) fasttime {
+	sum := d + clockPeriod
+	if sum < d {
+		sum = math.MaxInt64
+	}
+	return durationToTicks(sum)
 }
 
 func durationToTicks(d time.Duration) fasttime {
